@@ -94,7 +94,7 @@ def run(ctx):
 
 
 def _run(ctx):
-    return histcheck.run(ctx, cases_for(ctx.rng, ctx.tier), "C01", tags={"data", "create", "tree"}, unit_modules=["c01unit", "c01file"], known=KNOWN,
+    return histcheck.run(ctx, cases_for(ctx.rng, ctx.tier), "C01", tags={"data", "create", "tree"}, unit_modules=["c01unit", "c01file", "c01filev0"], known=KNOWN,
                          rule_extra="C01 cases: one fully written dataset per file over all element types, ranks 1-4, extents incl. 1/primes/"
                                     "non-multiples of the chunk extent, chunk shapes, superblock 0/2/3, data with extremes and NaN payloads; plus datasets with 31-100 chunks along one dimension (any position) of rank 1-3; "
                                     "plus one dataset per file of the extended kinds (compound with 1-5 numeric/string members at packed and padded offsets in v1/v3 encodings, array, enum, "
